@@ -241,8 +241,11 @@ func checkC07(c c07Case) obs.Result {
 	}
 
 	// ---- level 1: the exported non-validating reader
-	decl := edi.FileDecl{SegDelim: conf.Seg, ElemDelim: conf.Elem, CompDelim: conf.Comp, RepDelim: conf.Rep,
-		ReleaseChar: conf.Rel, IgnoreCRLF: conf.IgnoreCRLF}
+	// (the declaration goes through its JSON form, as a schema's does: no dependence on the Go types of the fields)
+	var decl edi.FileDecl
+	if err := json.Unmarshal([]byte(c07JSON(conf.FileDecl())), &decl); err != nil {
+		return obs.Violationf("harness: file declaration does not unmarshal: %v", err)
+	}
 	r := edi.NewNonValidatingReader(bytes.NewReader(input), &decl)
 	for i := 0; ; i++ {
 		seg, err := r.Read()
